@@ -504,7 +504,7 @@ Proof.
   rewrite NM. destruct (str_eqb m rns) eqn:E.
   - apply str_eqb_eq in E. subst rns. rewrite G. left. reflexivity.
   - destruct (name_in_module st rns (var_ns_sym m)) as [an|] eqn:NA; [|right; reflexivity].
-    rewrite (Ln _ _ _ (wf_vars _ W _ _ A) NA). cbv iota beta. rewrite G. left. reflexivity.
+    rewrite (Ln _ _ _ (wf_vars _ W _ _ A) NA). simpl fst. rewrite G. left. reflexivity.
 Qed.
 
 (** roots are only changed by def when the history has no alter-var-root *)
